@@ -146,8 +146,32 @@ func consistent(w []atom) bool {
 	return true
 }
 
-// definitelyNotNil: values that cannot be nil (fresh allocations, boxed concrete values, addresses).
+// nilLike maps an error value to a value that is nil exactly when it is: errors.Wrap(err, …) and its siblings return nil
+// for a nil error and a non-nil error otherwise.
+func nilLike(v ssa.Value) ssa.Value {
+	for i := 0; i < 4; i++ {
+		call, ok := v.(*ssa.Call)
+		if !ok || len(call.Call.Args) == 0 {
+			return v
+		}
+		switch CalleeRef(&call.Call) {
+		case "github.com/pkg/errors.Wrap", "github.com/pkg/errors.Wrapf", "github.com/pkg/errors.WithStack", "github.com/pkg/errors.WithMessage", "github.com/pkg/errors.WithMessagef":
+			v = call.Call.Args[0]
+		default:
+			return v
+		}
+	}
+	return v
+}
+
+// definitelyNotNil: values that cannot be nil (fresh allocations, boxed concrete values, addresses, constructed errors).
 func definitelyNotNil(v ssa.Value) bool {
+	if call, ok := v.(*ssa.Call); ok {
+		switch CalleeRef(&call.Call) {
+		case "fmt.Errorf", "errors.New", "github.com/pkg/errors.New", "github.com/pkg/errors.Errorf":
+			return true
+		}
+	}
 	switch x := v.(type) {
 	case *ssa.Alloc, *ssa.MakeInterface, *ssa.FieldAddr, *ssa.IndexAddr, *ssa.MakeClosure, *ssa.MakeMap, *ssa.MakeChan, *ssa.MakeSlice, *ssa.Function, *ssa.Global:
 		return true
@@ -205,6 +229,7 @@ func impliedWays(c ssa.Value, pol bool, depth int) [][]atom {
 	}
 	if phi, ok := self.nilOf.(*ssa.Phi); ok && self.nilOf != nil {
 		for i, op := range phi.Edges {
+			op = nilLike(op)
 			sub := [][]atom{nil}
 			switch {
 			case NilConst(op):
@@ -506,6 +531,7 @@ func selectorsOf(fn *ssa.Function) map[Edge]selector {
 						sub = impliedWays(op, pol, 1)
 					}
 				} else {
+					op = nilLike(op)
 					switch {
 					case NilConst(op):
 						if !self.isNil {
